@@ -146,7 +146,8 @@ def gen_params(ctx):
         double, fix = combos[k % len(combos)]
         rnd, cidx = k // len(combos), k % len(combos)
         r = ratios[(cidx + 2 * rnd + 1) % len(ratios)]   # (deterministic matrix: every combination meets a non-zero variance with and without matching sections within two rounds)
-        force = {"nmatch": 0, "noise": float(rng.choice([0.002, 0.01, 0.05])), "nx": int(rng.integers(9, 15)), "nta": int(rng.choice([0, 0, 1]))}
+        rnd, cidx = k // len(combos), k % len(combos)
+        force = {"nmatch": 0, "noise": float(rng.choice([0.002, 0.01, 0.05])), "nx": int(rng.integers(9, 15)), "nta": int((rnd + cidx // 2) % 2)}   # splices: deterministic
         if force["nta"]:
             force["nx"] = int(rng.integers(13, 17))
         with_match = (rnd + cidx) % 2 == 1
